@@ -11,7 +11,7 @@ def run(ck):
     parts = 16
     for i in range(parts):
         jobs.append(dict(exe=asan, args=["--mode", "grid", "--parts", parts, "--part", i, "--seed", sa.subseed(ck, i)], label="grid%d" % i))
-    n = int((6000 if thorough else 150) * ck.scale)
+    n = int((48000 if thorough else 150) * ck.scale)
     for i in range(16):
         jobs.append(dict(exe=asan, args=["--mode", "random", "--cases", n, "--seed", sa.subseed(ck, 100 + i)], label="random%d" % i, timeout=3600))
     if thorough:
